@@ -136,14 +136,14 @@ type Gen struct {
 }
 
 var (
-	dbPool   = []string{"db0", "db1", "db2"}
-	rpPool   = []string{"rp0", "rp1", "autogen"}
-	mstPool  = []string{"m0", "m1", "m2"}
-	userPool = []string{"u0", "u1", "root"}
-	cqPool   = []string{"cq0", "cq1"}
-	strPool  = []string{"s0", "s1"}
-	subPool  = []string{"sub0", "sub1"}
-	hostPool = []string{"10.0.0.1", "10.0.0.2", "10.0.0.3", "10.0.0.4"}
+	dbPool    = []string{"db0", "db1", "db2"}
+	rpPool    = []string{"rp0", "rp1", "autogen"}
+	mstPool   = []string{"m0", "m1", "m2"}
+	userPool  = []string{"u0", "u1", "root"}
+	cqPool    = []string{"cq0", "cq1"}
+	strPool   = []string{"s0", "s1"}
+	subPool   = []string{"sub0", "sub1"}
+	hostPool  = []string{"10.0.0.1", "10.0.0.2", "10.0.0.3", "10.0.0.4"}
 	fieldPool = []string{"f0", "f1", "t0", "t1"}
 )
 
@@ -356,14 +356,6 @@ func (g *Gen) rpInfo(name string) *mproto.RetentionPolicyInfo {
 }
 
 // ---- builders -------------------------------------------------------------------
-
-// Builder produces one command of a type.
-type Builder struct {
-	Type   mproto.Command_Type
-	Weight int
-	Admin  bool // belongs to the administrative subset used by C16
-	Fn     func(g *Gen) Cmd
-}
 
 func (g *Gen) plainCreateDatabase(db string) Cmd {
 	v := &mproto.CreateDatabaseCommand{Name: proto.String(db), ReplicaNum: proto.Uint32(1),
@@ -831,9 +823,29 @@ func (g *Gen) UpdateIndexInfoTier() Cmd {
 	return mk(mproto.Command_UpdateIndexInfoTierCommand, mproto.E_UpdateIndexInfoTierCommand_Command, v, "")
 }
 
+// downSamplePanics mirrors UpdateShardDownSampleInfo: it takes the FIRST group whose shard id
+// range [first,last] contains the id; after an expansion (ExpandGroups / node join with
+// expand-shards) the ranges of different groups overlap and that group may not hold the
+// shard, in which case the state machine dereferences nil.
+func downSamplePanics(r *meta.RetentionPolicyInfo, id uint64) bool {
+	for i := range r.ShardGroups {
+		sg := &r.ShardGroups[i]
+		if len(sg.Shards) > 0 && id >= sg.Shards[0].ID && id <= sg.Shards[len(sg.Shards)-1].ID && sg.Shard(id) == nil {
+			return true
+		}
+	}
+	return false
+}
+
 func (g *Gen) UpdateShardDownSampleInfo() Cmd {
 	db, rp := g.dbrpWith(hasGroups)
 	id, sg := g.anyShard(db, rp)
+	if r := g.rp(db, rp); r != nil {
+		// mostly stay clear of the crash input (it is reported as apply-panic when hit)
+		for tries := 0; tries < 6 && downSamplePanics(r, id) && g.p(0.95); tries++ {
+			id, sg = g.anyShard(db, rp)
+		}
+	}
 	gid := uint64(0)
 	if sg != nil {
 		gid = sg.ID
@@ -1137,7 +1149,7 @@ func (g *Gen) eventInfo(existing bool) *mproto.MigrateEventInfo {
 	db := g.pickDB()
 	pb, _ := g.ptInfo(db)
 	return &mproto.MigrateEventInfo{EventId: proto.String(g.eventID(db, pb.GetPtId())), EventType: proto.Int32(int32(g.n(3))), OpId: proto.Uint64(0),
-		Pti: &mproto.DbPt{Db: proto.String(db), Pt: pb, DBBriefInfo: &mproto.DatabaseBriefInfo{Name: proto.String(db), EnableTagArray: proto.Bool(false), Replicas: proto.Int32(1)}},
+		Pti:       &mproto.DbPt{Db: proto.String(db), Pt: pb, DBBriefInfo: &mproto.DatabaseBriefInfo{Name: proto.String(db), EnableTagArray: proto.Bool(false), Replicas: proto.Int32(1)}},
 		CurrState: proto.Int32(int32(g.n(4))), PreState: proto.Int32(int32(g.n(4))), Src: proto.Uint64(g.pickNodeID(g.dataNodeIDs())), Dest: proto.Uint64(g.pickNodeID(g.dataNodeIDs())),
 		CheckConflict: proto.Bool(g.p(0.5)), AliveConnId: proto.Uint64(uint64(g.n(5)))}
 }
@@ -1218,8 +1230,8 @@ func (g *Gen) MarkBalancer() Cmd {
 func (g *Gen) CreateStream() Cmd {
 	db, rp := g.dbrp()
 	v := &mproto.CreateStreamCommand{StreamInfo: &mproto.StreamInfo{Name: proto.String(pickS(g, strPool)), ID: proto.Uint64(0),
-		SrcMst: &mproto.StreamMeasurementInfo{Name: proto.String(pickS(g, mstPool)), Database: proto.String(db), RetentionPolicy: proto.String(rp)},
-		DesMst: &mproto.StreamMeasurementInfo{Name: proto.String("dst"), Database: proto.String(db), RetentionPolicy: proto.String(rp)},
+		SrcMst:   &mproto.StreamMeasurementInfo{Name: proto.String(pickS(g, mstPool)), Database: proto.String(db), RetentionPolicy: proto.String(rp)},
+		DesMst:   &mproto.StreamMeasurementInfo{Name: proto.String("dst"), Database: proto.String(db), RetentionPolicy: proto.String(rp)},
 		Interval: proto.Int64(int64(1+g.n(2)) * int64(time.Minute)), Delay: proto.Int64(int64(time.Second)), Dims: []string{"t0"},
 		Calls: []*mproto.StreamCall{{Call: proto.String("sum"), Field: proto.String("f0"), Alias: proto.String("sum_f0")}}, Cond: proto.String("")}}
 	return mk(mproto.Command_CreateStreamCommand, mproto.E_CreateStreamCommand_Command, v, "")
